@@ -98,6 +98,9 @@ def rx_case(draw):
                 ident = m     # shorthand
             t = draw(st.sampled_from([None, NOW - 100.5, NOW + 5000, NOW, 0.0, 12.25]))
             op = {'op': 'msg', 'action': action, 'ident': ident, 'mod': m, 'wire': w, 't': t}
+            if action in ('reply', 'error_read') and draw(st.integers(0, 2)) == 0:
+                # this line answers a readParameter() call; its caller resumes only after all later lines are processed
+                op['reader'] = True
             if action.startswith('error_'):
                 op['err'] = [draw(st.sampled_from(['HardwareError', 'CommunicationFailed', 'RangeError', 'NoSuchErrorClass', 'InternalError'])),
                              draw(st.sampled_from(['text', 'ValueError: inner', '', 'ü']))]
@@ -168,6 +171,7 @@ def check_rx(ctx, case):
     client.register_callback(None, handleError=lambda exc: errors_seen.append(exc))
     state = {'errs': 0, 'transition': False, 'midreg': False, 'nmsg': 0}
     findings = []
+    readers = []
 
     def key_of(r):
         return None if r['level'] == 'node' else r['mod'] if r['level'] == 'module' else names.get(f'{r["mod"]}:{r["wire"]}', (r['mod'], r['wire']))
@@ -306,6 +310,13 @@ def check_rx(ctx, case):
                 data = [op['value'], {} if op['t'] is None else {'t': op['t']}]
             line = f'{op["action"]} {op["ident"]} {json.dumps(data)}'.encode('utf-8')
             script.append(mk_expect(op))
+            if op.get('reader') and op['ident'] in dts:
+                def add_reader(op=op):
+                    # what queue_request and the tx thread do for client.readParameter(...)
+                    entry = [('read', op['ident'], None), fc.Event(), None]
+                    client.active_requests[('reply', op['ident'])] = entry
+                    readers.append((names[op['ident']], entry))
+                script.append(add_reader)
             script.append(line)
     client.io = FakeIO(script)
     client._running = True
@@ -318,6 +329,24 @@ def check_rx(ctx, case):
         return
     finally:
         fc.time = real_time
+    # the callers of readParameter resume now: they return what is cached, the cache is as the messages left it
+    for (mod, par), entry in readers:
+        if not entry[1].is_set():
+            findings.append(('rx:reader-not-released', f'{mod}:{par}'))
+            continue
+        client.queue_request = lambda *a, _e=entry: _e
+        try:
+            client.readParameter(mod, par)
+        except Exception as e:   # noqa - readParameter returns errors as cache entries
+            if not plan or all(k != 'malformed' for k, _ in plan):
+                findings.append((f'rx:readParameter-raises:{type(e).__name__}', repr(e)[:200]))
+        finally:
+            del client.queue_request
+        state['readers'] = state.get('readers', 0) + 1
+    for sig, detail in findings:
+        ctx.finding(sig, case, detail)
+    if findings:
+        return
     nmsgs = sum(1 for op in case['ops'] if op['op'] in ('msg', 'raw'))
     ctx.ev(max(nmsgs, 1))
     if client.io is not None and client.io.script:
@@ -356,6 +385,8 @@ def check_rx(ctx, case):
         ctx.nt(('rx', repr(case['ops']), json.dumps(case['classes'], sort_keys=True, default=repr)))
     for kind, _ in plan:
         ctx.label(f'msg:{kind}')
+    if state.get('readers'):
+        ctx.label('rx:readParameter-caller-resumed-late')
     if state.get('selfunreg'):
         ctx.label('rx:callback-unregistered-itself')
     if state.get('pairreg'):
